@@ -199,7 +199,7 @@ def run(rep, f, prop):
                     lost.setdefault(c, []).append(role)
         # codes whose every baseline role vanished
         present_roles = set(q for q in b["closure"] if q in f.by_q)
-        if len(present_roles) < 0.5 * len(b["closure"]):
+        if len(b["closure"]) >= 4 and len(present_roles) < 0.5 * len(b["closure"]):
             raise AnalysisBroken("more than half of the baseline role functions of %s are gone (renamed?)" % S)
         all_codes_now = set()
         for v in M.values():
